@@ -841,3 +841,76 @@ func checkC19GroupAddGroup(c *Ctx, n int) {
 		}
 	}
 }
+
+// checkC19Counts: the count constraint a positional field declares (`required:"N"`, `"N-M"`, `"N-"`, `"-M"`, a
+// non-numeric mark) is what the public model reports — also a lower bound of ZERO (`0-2`, `0-0`, `0`), for the
+// parser's and a command's positional arguments, for the trailing slice and the plain fields.
+func checkC19Counts(c *Ctx, n int) {
+	r := c.Rng
+	specs := []string{"0-2", "0-0", "0", "1-2", "2", "-3", "2-", "yes", "true", "0-", "3-3", "x-2", "1-x", ""}
+	reading := func(spec string) (int, int) {
+		if spec == "" {
+			return -1, -1
+		}
+		req, max := 1, -1
+		if k := strings.Index(spec, "-"); k >= 0 {
+			if v, err := strconv.Atoi(spec[:k]); err == nil && spec[:k] != "" {
+				req = v
+			}
+			if v, err := strconv.Atoi(spec[k+1:]); err == nil && spec[k+1:] != "" {
+				max = v
+			}
+		} else if v, err := strconv.Atoi(spec); err == nil {
+			req = v
+		}
+		return req, max
+	}
+	for i := 0; i < n; i++ {
+		s1, s2 := specs[r.Intn(len(specs))], specs[r.Intn(len(specs))]
+		tagOf := func(s string) string {
+			if s == "" {
+				return ""
+			}
+			return fmt.Sprintf(`required:"%s"`, s)
+		}
+		pos := &StructDesc{Fields: []FieldDesc{
+			{Name: "First", Exported: true, Kind: "v", Ty: "str", Tag: tagOf(s1)},
+			{Name: "Rest", Exported: true, Kind: "v", Ty: "Lstr", Tag: tagOf(s2)}}}
+		holder := &StructDesc{Fields: []FieldDesc{
+			{Name: "V", Exported: true, Kind: "v", Ty: "bool", Tag: `short:"v"`},
+			{Name: "Args", Exported: true, Kind: "s", Sub: pos, Tag: `positional-args:"yes"`}}}
+		root := holder
+		onCmd := r.Intn(2) == 0
+		if onCmd {
+			root = &StructDesc{Fields: []FieldDesc{{Name: "Run", Exported: true, Kind: "s", Sub: holder, Tag: `command:"run"`}}}
+		}
+		cs := &Case{Name: "app", NsDelim: ".", EnvNsDelim: "_"}
+		cs.Build = []BuildOp{{Kind: "addgroup", Target: 1, Short: "Application Options", Struct: root}}
+		cs.Ops = []Op{{Kind: "model"}}
+		cs.Description = describeOps(cs) + fmt.Sprintf(" First `%s` Rest `%s`", tagOf(s1), tagOf(s2))
+		c.RunCases([]*Case{cs}, func(cr *CaseResult) {
+			c.classifyCase(cr)
+			if cr.Real == nil || cr.Real.dead {
+				return
+			}
+			c.Class(fmt.Sprintf("c19/counts: first=%q rest=%q on-command=%v", s1, s2, onCmd))
+			cmd := cr.Real.p.Command
+			if onCmd {
+				cmd = cr.Real.p.Find("run")
+			}
+			args := cmd.Args()
+			got := "no positional arguments"
+			if len(args) == 2 {
+				got = fmt.Sprintf("First required=%d max=%d; Rest required=%d max=%d", args[0].Required, args[0].RequiredMaximum, args[1].Required, args[1].RequiredMaximum)
+			}
+			a1, b1 := reading(s1)
+			a2, b2 := reading(s2)
+			want := fmt.Sprintf("First required=%d max=%d; Rest required=%d max=%d", a1, b1, a2, b2)
+			in := map[string]interface{}{"case": cs.Description, "first_tag": tagOf(s1), "rest_tag": tagOf(s2)}
+			if got != want {
+				in["case_file"] = c.saveCase(cr)
+			}
+			c.Check("positional-counts-reflect-the-tag", got == want, "C19:counts", in, got, want)
+		})
+	}
+}
